@@ -53,12 +53,76 @@ def rcu_depth(p):
     return out
 
 
-def analyse(ctx, funcs, bound=3000):
+def unlocked_derefs(F, p, d):
+    """(event, loaded value) for uses of *v / v->field at RCU depth 0 where v was read from a shared atomic on this path"""
+    from .e2 import PROJ, is_ptr_type
+    ev = p.events
+    origin = {}
+    alias = {}
+    out = []
+
+    def resolve(v):
+        k = 0
+        while v in alias and k < 8:
+            v = alias[v]
+            k += 1
+        return v
+
+    def derefs(sv, depth=0):
+        """pointer values dereferenced somewhere inside sv"""
+        if not isinstance(sv, tuple) or depth > 10:
+            return
+        if sv[:1] == ("deref",) and len(sv) > 1:
+            yield resolve(sv[1])
+        elif sv[:1] == ("fld",) and len(sv) > 1:
+            yield resolve(sv[1])
+        for x in sv:
+            if isinstance(x, tuple):
+                for y in derefs(x, depth + 1):
+                    yield y
+    for i, e in enumerate(ev):
+        svs = []
+        if e.kind == "call":
+            q = e.q or ""
+            if PROJ.search(q):
+                src = e.obj if e.obj is not None else (e.args[0] if e.args else None)
+                if src is not None:
+                    alias[e.val] = src[1] if isinstance(src, tuple) and src[:1] == ("deref",) else src
+                continue
+            op = atomic_op(e)
+            if op in ("load", "exchange") and e.node is not None and is_ptr_type(e.node.get("t")):
+                origin[e.val] = e
+            svs = [e.obj] + list(e.args)
+        elif e.kind == "store":
+            svs = [e.obj, e.val]
+        elif e.kind == "branch":
+            svs = [e.val]
+            if isinstance(e.extra, tuple) and e.extra[0] != "switch":
+                from sa.pathsim import norm_cond
+                atom, pol = norm_cond(e.val)
+                if isinstance(atom, tuple) and len(atom) == 4 and atom[:2] == ("op", "==") and e.extra[1] == pol:
+                    a, b = resolve(atom[2]), resolve(atom[3])
+                    # a value found equal to a pointer just read from the container names the same shared node
+                    if a in origin and b not in origin:
+                        origin[b] = origin[a]
+                    elif b in origin and a not in origin:
+                        origin[a] = origin[b]
+        if d[i] != 0:
+            continue
+        for sv in svs:
+            for v in derefs(sv):
+                if v in origin:
+                    out.append((e, v, origin[v]))
+    return out
+
+
+def analyse(ctx, funcs, bound=3000, deref_exempt=None):
     """per function: list of (event, depth, callee belief) for calls; derived requires_locked / requires_unlocked by fixpoint"""
     beliefs = harvest_beliefs(ctx.bdb) if ctx.bdb is not None else {}
     if not beliefs:
         ctx.broken("no is_locked() beliefs harvested from the -UNDEBUG parse")
     sites = {}      # F.m -> list of (callee m, callee q, depth, node)
+    uses = {}       # F.m -> {(use node id, load node id): (use node, load node)}: shared nodes dereferenced outside any rcu_lock scope
     skipped = 0
     fmap = {}
     for F in funcs:
@@ -77,6 +141,12 @@ def analyse(ctx, funcs, bound=3000):
         lst = {}
         for p in ps:
             d = rcu_depth(p)
+            if deref_exempt is not False and name not in ("clear", "destroy", "check_consistency") and F.kind != "dtor":
+                for (e, v, ld) in unlocked_derefs(F, p, d):
+                    if deref_exempt and deref_exempt(F, e, ld):
+                        continue
+                    if e.node is not None and ld.node is not None:
+                        uses.setdefault(F.m, {})[(id(e.node), id(ld.node))] = (e.node, ld.node)
             for i, e in enumerate(p.events):
                 if e.kind == "call" and e.q and e.node is not None:
                     key = (id(e.node), min(d[i], 1))
@@ -87,6 +157,7 @@ def analyse(ctx, funcs, bound=3000):
                     lst[key] = (e.node.get("m"), e.q, d[i], e.node)
         sites[F.m] = list(lst.values())
     locked = {m for m, v in beliefs.items() if v == "locked"}
+    locked |= set(uses)
     unlocked = {m for m, v in beliefs.items() if v == "unlocked"}
     changed = True
     while changed:
@@ -102,15 +173,15 @@ def analyse(ctx, funcs, bound=3000):
                     if (cm in unlocked or MUST_UNLOCKED.search(cq)) and m not in unlocked and beliefs.get(m) != "locked":
                         unlocked.add(m)
                         changed = True
-    return beliefs, sites, fmap, locked, unlocked, skipped
+    return beliefs, sites, fmap, locked, unlocked, skipped, uses
 
 
-def rule_rcu_discipline(ctx, rid, funcs, reason, contract=None, bound=3000):
+def rule_rcu_discipline(ctx, rid, funcs, reason, contract=None, bound=3000, deref_exempt=None):
     """(a) nothing that must run unlocked (synchronize, retire, raw_ptr/exempt_ptr release, functions asserting !is_locked - transitively) is
     called inside an rcu_lock scope; (b) no function is both required-locked and required-unlocked (belief contradiction); (c) the set of
     members whose callers must hold the read lock is exactly the reference contract table (a member that starts to rely on its caller's lock
     has lost its own rcu_lock scope)"""
-    beliefs, sites, fmap, locked, unlocked, skipped = analyse(ctx, funcs, bound)
+    beliefs, sites, fmap, locked, unlocked, skipped, uses = analyse(ctx, funcs, bound, deref_exempt)
     ctx.info["rcu_beliefs"] = {"asserted": len(beliefs), "requires_locked": len(locked), "requires_unlocked": len(unlocked)}
     n = 0
     for m, lst in sites.items():
@@ -146,6 +217,13 @@ def rule_rcu_discipline(ctx, rid, funcs, reason, contract=None, bound=3000):
             if key not in allowed:
                 # which call makes it depend on the caller's lock
                 culprit = [(cq, node) for cm, cq, depth, node in sites[m] if depth == 0 and cm in locked]
+                if not culprit and m in uses:
+                    un, ln = list(uses[m].values())[0]
+                    ctx.bad(rid, F, "%s dereferences a node read from the container outside any RCU read-side critical section" % F.q.split("::")[-1], un,
+                            detail="the pointer loaded at line %s (%s) is used at line %s (%s) with no rcu_lock held and the member is not documented as "
+                            "'RCU must be locked by the caller': the node can be reclaimed in between. %s" % (ln.get("l"), F.text(ln)[:80], un.get("l"), F.text(un)[:80], reason),
+                            sig="unlocked-deref")
+                    continue
                 ctx.bad(rid, F, "%s now relies on its caller holding the RCU read lock, but its contract is to lock itself" % F.q.split("::")[-1],
                         culprit[0][1] if culprit else None,
                         detail="it reaches %s (which requires the lock) outside any rcu_lock scope: a traversal outside the read-side critical "
